@@ -212,7 +212,11 @@ void AsyncPipe::Impl::cleanup()
     if (!inited_)
         return;
 
-    stop_signal_ = true;
+    {
+        //! 必须持 full_buffers_mutex_ 置位，后台线程是在该锁保护下读取 stop_signal_ 的
+        std::lock_guard<std::mutex> lg(full_buffers_mutex_);
+        stop_signal_ = true;
+    }
     full_buffers_cv_.notify_all();
     backend_thread_.join();
     stop_signal_ = false;
